@@ -1070,7 +1070,8 @@ Lemma step_inv : forall v c n s tr o s' evs ok,
   step v c s o = (s', evs, ok) -> hinv c n s' (tr ++ evs).
 Proof.
   intros v c n s tr o s' evs ok ((Hs & Hp & Hw) & Hsk) Hb Hh H. pose proof Hh as [Hrep Hinv].
-  destruct o as [k vs|full b fail core|b fail core k ds vs]; cbn [step] in H.
+  destruct o as [k vs|full b fail core|b fail core k ds vs|b fail core k ds vs]; cbn [step] in H;
+    [| | |destruct Hb].
   - (* append *)
     injection H as <- <- <-. split; cbn [s_hub s_job].
     + rewrite replay_app, Hrep. reflexivity.
@@ -1344,24 +1345,178 @@ Proof.
   rewrite map_app. apply in_or_app. now left.
 Qed.
 
+(** ** an incremental run interrupted by a write: still only main-dataset ids *)
+Section MidMain.
+  Variables (v : variant) (c : cfg) (h0 : hub) (ds : nat) (vs : list wver) (b k : nat).
+  Let h1 := append_hub h0 ds vs.
+  Let e := EvAppend ds vs.
+  Let M (w : bool) : list N := main_ids (if w then h1 else h0) c.
+
+  Lemma M_mono : forall m, In m (M false) -> In m (M true).
+  Proof. intros m H. unfold M, h1. now apply main_ids_append. Qed.
+
+  Fixpoint ok_evs (w : bool) (L : list ev) : Prop :=
+    match L with
+    | [] => True
+    | EvCall es _ :: r => (forall m, In m es -> In m (M w)) /\ ok_evs w r
+    | EvAppend ds' vs' :: r => w = false /\ ok_evs true r
+    end.
+
+  Lemma ok_evs_app : forall A B w, ok_evs w A -> ok_evs (w || has_append A) B -> ok_evs w (A ++ B).
+  Proof.
+    induction A as [|a A IH]; intros B w HA HB; cbn [app has_append] in *.
+    - now rewrite orb_false_r in HB.
+    - destruct a as [d x|es t]; cbn [ok_evs has_append] in *.
+      + destruct HA as [-> HA]. cbn [orb] in HB. split; auto.
+      + destruct HA as [H1 HA]. split; auto.
+  Qed.
+
+  Lemma ok_evs_true_of_false : forall L, ok_evs false L -> has_append L = false -> ok_evs true L.
+  Proof.
+    induction L as [|a L IH]; intros H Hn; cbn [ok_evs has_append] in *; auto.
+    destruct a as [d x|es t]; [discriminate|]. destruct H as [H1 H2]. split; auto.
+    intros m Hm. apply M_mono. auto.
+  Qed.
+
+  Definition inv_n (w : bool) (n : nat) : Prop := if w then (k < n)%nat else (n <= k)%nat.
+
+  Lemma emit_calls_ok : forall cs n w es n' w1,
+    (forall m, In m (ents cs) -> In m (M w)) -> inv_n w n ->
+    emit_calls cs n k e = (es, n', w1) ->
+    ok_evs w es /\ has_append es = w1 /\ inv_n (w || w1) n' /\ (w = true -> w1 = false).
+  Proof.
+    induction cs as [|c0 cs IH]; intros n w es n' w1 Hsub Hn H; cbn [emit_calls] in H.
+    - injection H as <- <- <-. cbn. rewrite orb_false_r. auto.
+    - assert (Hsub0 : forall m, In m (k_ents c0) -> In m (M w)).
+      { intros m Hm. apply Hsub. unfold ents. cbn. apply in_or_app. now left. }
+      assert (Hsub' : forall m, In m (ents cs) -> In m (M w)).
+      { intros m Hm. apply Hsub. unfold ents in *. cbn. apply in_or_app. now right. }
+      destruct (k_ents c0) as [|x0 xs] eqn:Ek.
+      + destruct (emit_calls cs n k e) as [[r n1] w0] eqn:E. injection H as <- <- <-.
+        destruct (IH _ _ _ _ _ Hsub' Hn E) as (H1 & H2 & H3 & H4). cbn [ok_evs has_append]. auto.
+      + destruct (Nat.eqb n k) eqn:Enk.
+        * destruct (emit_calls cs (S n) k e) as [[r n1] w0] eqn:E. injection H as <- <- <-.
+          apply Nat.eqb_eq in Enk. subst n. destruct w; [cbn in Hn; lia|].
+          assert (Hsub1 : forall m, In m (ents cs) -> In m (M true)) by (intros; apply M_mono; auto).
+          destruct (IH (S k) true _ _ _ Hsub1 ltac:(cbn; lia) E) as (H1 & H2 & H3 & H4).
+          unfold e. cbn [ok_evs has_append orb]. cbn [orb] in H3.
+          split; [split; [exact Hsub0|split; [reflexivity|exact H1]]|]. split; [reflexivity|]. split; [exact H3|].
+          intros; discriminate.
+        * destruct (emit_calls cs (S n) k e) as [[r n1] w0] eqn:E. injection H as <- <- <-.
+          apply Nat.eqb_neq in Enk.
+          assert (Hn' : inv_n w (S n)) by (destruct w; cbn in *; lia).
+          destruct (IH _ _ _ _ _ Hsub' Hn' E) as (H1 & H2 & H3 & H4). cbn [ok_evs has_append]. auto.
+  Qed.
+
+  Lemma deps_steps_mid_ok : forall tk0 dps d n w es d2 n2 w2,
+    inv_n w n -> deps_steps_mid v c h0 h1 tk0 b d dps n k e w = (es, d2, n2, w2) ->
+    ok_evs w es /\ w2 = w || has_append es /\ inv_n w2 n2.
+  Proof.
+    intros tk0. induction dps as [|dp rest IH]; intros d n w es d2 n2 w2 Hn H; cbn [deps_steps_mid] in H.
+    - injection H as <- _ <- <-. cbn. rewrite orb_false_r. auto.
+    - destruct (dep_step v c (if w then h1 else h0) tk0 b d dp rest) as [cs d1] eqn:Ed.
+      destruct (emit_calls cs n k e) as [[es1 n1] w1] eqn:Ee.
+      destruct (deps_steps_mid v c h0 h1 tk0 b d1 rest n1 k e (w || w1)) as [[[es' d2'] n2'] w2'] eqn:Er.
+      injection H as <- _ <- <-.
+      assert (Hsub : forall m, In m (ents cs) -> In m (M w)).
+      { intros m Hm. unfold M. apply main_live_In. eapply dep_step_main; eauto. }
+      destruct (emit_calls_ok _ _ _ _ _ _ Hsub Hn Ee) as (H1 & H2 & H3 & H4).
+      destruct (IH _ _ _ _ _ _ _ H3 Er) as (I1 & I2 & I3).
+      split; [apply ok_evs_app; auto; now rewrite H2|]. split; auto.
+      rewrite I2, <- H2. clear. induction es1 as [|a es1 IHe]; cbn [app has_append]; [now rewrite orb_false_r|].
+      destruct a; cbn; [now rewrite !orb_true_r|]. exact IHe.
+  Qed.
+
+  Lemma has_append_app : forall A B, has_append (A ++ B) = has_append A || has_append B.
+  Proof. induction A as [|a A IH]; intros B; cbn [app has_append]; auto. destruct a; auto. Qed.
+
+  Lemma read_page_mid_ok : forall tk0 n w es tk1 more n2 w2,
+    inv_n w n -> read_page_mid v c h0 h1 tk0 b n k e w = (es, tk1, more, n2, w2) ->
+    ok_evs w es /\ w2 = w || has_append es /\ inv_n w2 n2.
+  Proof.
+    intros tk0 n w es tk1 more n2 w2 Hn H. unfold read_page_mid in H.
+    destruct (deps_steps_mid v c h0 h1 tk0 b tk0 (c_deps c) n k e w) as [[[es1 d] n1] w1] eqn:Ed.
+    destruct (changes (feed_of (if w1 then h1 else h0) (c_main c)) (t_main tk0) b (c_latest c)) as [[xs sk] cont] eqn:Ech.
+    destruct (emit_calls [mkCall (map v_id xs) (mkTok cont (t_deps d))] n1 k e) as [[em nm] wm] eqn:Ee.
+    injection H as <- _ _ <- <-.
+    destruct (deps_steps_mid_ok _ _ _ _ _ _ _ _ _ Hn Ed) as (H1 & H2 & H3).
+    assert (Hsub : forall m, In m (ents [mkCall (map v_id xs) (mkTok cont (t_deps d))]) -> In m (M w1)).
+    { intros m Hm. unfold ents in Hm. cbn in Hm. rewrite app_nil_r in Hm. apply in_map_iff in Hm.
+      destruct Hm as (x & <- & Hx). unfold M, main_ids. apply in_map. eapply changes_sub; eauto. }
+    destruct (emit_calls_ok _ _ _ _ _ _ Hsub H3 Ee) as (E1 & E2 & E3 & E4).
+    split; [apply ok_evs_app; auto; now rewrite <- H2|]. split; auto.
+    rewrite has_append_app, E2, H2. now rewrite orb_assoc.
+  Qed.
+
+  Lemma inc_pages_mid_ok : forall fuel tk n w,
+    inv_n w n -> ok_evs w (inc_pages_mid v c h0 h1 b fuel tk n k e w).
+  Proof.
+    induction fuel as [|fuel IH]; intros tk n w Hn; cbn [inc_pages_mid]; [exact I|].
+    destruct (read_page_mid v c h0 h1 tk b n k e w) as [[[[es tk'] more] n'] w'] eqn:Ep.
+    destruct (read_page_mid_ok _ _ _ _ _ _ _ _ Hn Ep) as (H1 & H2 & H3).
+    destruct more; auto. apply ok_evs_app; auto. rewrite <- H2. apply IH. exact H3.
+  Qed.
+
+  Lemma cut_evs_ok : forall L fail n w L' ok, ok_evs w L -> cut_evs L fail n = (L', ok) -> ok_evs w L'.
+  Proof.
+    induction L as [|a L IH]; intros fail n w L' ok H Hc; cbn [cut_evs] in Hc.
+    - injection Hc as <- _. exact I.
+    - destruct a as [d x|[|y es] t]; cbn [ok_evs] in H.
+      + destruct (cut_evs L fail n) as [r ok'] eqn:E. injection Hc as <- _. destruct H as [-> H]. split; eauto.
+      + destruct (cut_evs L fail n) as [r ok'] eqn:E. injection Hc as <- _. destruct H as [H1 H]. split; eauto.
+      + destruct (match fail with Some i => Nat.eqb i n | None => false end).
+        * injection Hc as <- _. exact I.
+        * destruct (cut_evs L fail (S n)) as [r ok'] eqn:E. injection Hc as <- _. destruct H as [H1 H]. split; eauto.
+  Qed.
+
+  Lemma ok_evs_ents : forall L w, ok_evs w L -> forall m, In m (ents_of L) -> In m (M (w || has_append L)).
+  Proof.
+    induction L as [|a L IH]; intros w H m Hm; cbn [ents_of has_append ok_evs] in *; [destruct Hm|].
+    destruct a as [d x|es t].
+    - destruct H as [-> H]. cbn. specialize (IH true H m Hm). cbn in IH. exact IH.
+    - destruct H as [H1 H]. apply in_app_or in Hm. destruct Hm as [Hm|Hm]; [|auto].
+      specialize (H1 m Hm). destruct w; cbn; auto. destruct (has_append L); auto. now apply M_mono.
+  Qed.
+End MidMain.
+
 Lemma step_main : forall v c s0 o s1 e1 ok1,
   step v c s0 o = (s1, e1, ok1) ->
   (forall m, In m (ents_of e1) -> In m (main_ids (s_hub s1) c)) /\
   (forall m, In m (main_ids (s_hub s0) c) -> In m (main_ids (s_hub s1) c)).
 Proof.
-  intros v c s0 o s1 e1 ok1 E1. destruct o as [k vs|full b fail core|b fail core k ds vs]; cbn [step] in E1.
-  - injection E1 as <- <- _. cbn [s_hub]. split; [intros m []|]. intros m. apply main_ids_append.
-  - destruct (run_events v c (s_hub s0) (s_job s0) full b fail core) as [evs ok] eqn:Er.
-    injection E1 as <- <- _. cbn [s_hub]. split; auto. intros m Hm. eapply run_events_main; eauto.
-  - destruct (run_events v c (s_hub s0) (s_job s0) true b fail core) as [evs ok] eqn:Er.
-    destruct (insert_mid evs k (EvAppend ds vs)) as [evs1 ins] eqn:Ei. injection E1 as <- <- _. cbn [s_hub].
+  intros v c s0 o s1 e1 ok1 E1.
+  assert (Hfullmid : forall job b fail core k ds vs evs ok evs1 ins,
+            run_events v c (s_hub s0) job true b fail core = (evs, ok) ->
+            insert_mid evs k (EvAppend ds vs) = (evs1, ins) ->
+            (forall m, In m (ents_of evs1) -> In m (main_ids (if ins then append_hub (s_hub s0) ds vs else s_hub s0) c)) /\
+            (forall m, In m (main_ids (s_hub s0) c) -> In m (main_ids (if ins then append_hub (s_hub s0) ds vs else s_hub s0) c))).
+  { intros job b fail core k ds vs evs ok evs1 ins Er Ei.
     assert (Hmono : forall m, In m (main_ids (s_hub s0) c) ->
                               In m (main_ids (if ins then append_hub (s_hub s0) ds vs else s_hub s0) c)).
     { intros m Hm. destruct ins; auto. now apply main_ids_append. }
     split; auto. intros m Hm. apply Hmono.
     destruct (insert_mid_spec _ _ _ _ _ Ei) as [[_ ->]|(_ & a1 & a2 & -> & ->)].
     + eapply run_events_main; eauto.
-    + eapply run_events_main; eauto. rewrite ents_of_app in *. cbn [ents_of] in Hm. exact Hm.
+    + eapply run_events_main; eauto. rewrite ents_of_app in *. cbn [ents_of] in Hm. exact Hm. }
+  destruct o as [k vs|full b fail core|b fail core k ds vs|b fail core k ds vs]; cbn [step] in E1.
+  - injection E1 as <- <- _. cbn [s_hub]. split; [intros m []|]. intros m. apply main_ids_append.
+  - destruct (run_events v c (s_hub s0) (s_job s0) full b fail core) as [evs ok] eqn:Er.
+    injection E1 as <- <- _. cbn [s_hub]. split; auto. intros m Hm. eapply run_events_main; eauto.
+  - destruct (run_events v c (s_hub s0) (s_job s0) true b fail core) as [evs ok] eqn:Er.
+    destruct (insert_mid evs k (EvAppend ds vs)) as [evs1 ins] eqn:Ei. injection E1 as <- <- _. cbn [s_hub].
+    eapply Hfullmid; eauto.
+  - destruct (s_job s0) as [tk|].
+    + destruct (cut_evs (inc_pages_mid v c (s_hub s0) (append_hub (s_hub s0) ds vs) b (fuel_of (s_hub s0) c) tk 0 k
+                                       (EvAppend ds vs) false) fail 0) as [evs ok] eqn:Ec.
+      injection E1 as <- <- _. cbn [s_hub].
+      pose proof (inc_pages_mid_ok v c (s_hub s0) ds vs b k (fuel_of (s_hub s0) c) tk 0 false ltac:(cbn; lia)) as Hok.
+      pose proof (cut_evs_ok c (s_hub s0) ds vs _ _ _ _ _ _ Hok Ec) as Hok'.
+      split.
+      * intros m Hm. exact (ok_evs_ents c (s_hub s0) ds vs _ _ Hok' m Hm).
+      * intros m Hm. destruct (has_append evs); auto. now apply main_ids_append.
+    + destruct (run_events v c (s_hub s0) None true b fail core) as [evs ok] eqn:Er.
+      destruct (insert_mid evs k (EvAppend ds vs)) as [evs1 ins] eqn:Ei. injection E1 as <- <- _. cbn [s_hub].
+      eapply Hfullmid; eauto.
 Qed.
 
 (** C18_main_only: whatever is handed to the sink, in any run of any history under any variant, is an entity
